@@ -216,6 +216,11 @@ func (p C07) Run(c *sim.Ctx, t *sim.Tape) sim.RunResult {
 		kind += "-win"
 	}
 	w := buildWorld(cfg, 1)
+
+	if cfg.Windows && w.mem != nil && t.Chance(500) {
+		_ = w.mem.VolumeAdd("D:") // a second drive: its root is a root too
+	}
+
 	env := &fsx.Env{VFS: wrapFS(kind, w)}
 	tr := seqTrace{FS: kind}
 	res := sim.RunResult{}
